@@ -8,7 +8,8 @@ import bt
 from bt import algos
 from bt.core import FixedIncomeSecurity, FixedIncomeStrategy, Security, SecurityBase, Strategy, StrategyBase
 
-from .. import common, instrument as ins
+from .. import common, instrument as ins, mon2, w2
+from . import _w2case
 
 ID = "C20"
 LEVEL = "exploration"
@@ -28,13 +29,14 @@ def plan(tier):
     q = tier == "quick"
     return [dict(unit="risk", n=400 if q else 12000, builds=["py"], case_timeout=60),
             dict(unit="hedge", n=500 if q else 15000, builds=["py"], case_timeout=60),
+            dict(unit="risk_bt", n=120 if q else 3000, builds=["py", "so"], case_timeout=180),
             dict(unit="close", n=300 if q else 8000, builds=["py", "so"], case_timeout=120),
             dict(unit="roll", n=300 if q else 8000, builds=["py", "so"], case_timeout=120)]
 
 
 def floors(tier):
     return {"min_decided": 1200, "counters": {"risk_evals": 5000, "history_evals": 1000, "hedges_exact": 150, "hedges_pseudo": 100, "close_calls": 2000,
-                                              "closes_done": 200, "rolls_done": 150, "select_active_evals": 1500}, "max_undecided_frac": 0.3}
+                                              "closes_done": 200, "rolls_done": 150, "select_active_evals": 1500, "risk_bt_evals": 3000}, "max_undecided_frac": 0.3}
 
 
 def mk_tree(rng, names, mults):
@@ -346,7 +348,50 @@ def case_close_roll(cs, which):
     return common.result(common.HELD, sig=sig, nt=nt, cnt=ctx.cnt, sample=w)
 
 
+class RiskBtCtx(mon2.SharedCtx):
+    """inside real backtests: after every UpdateRisk call the risks of the whole tree are recomputed from the unit-risk frames as handed to Backtest"""
+
+    def __init__(self, frames):
+        self.frames = frames
+        self.viol = None
+        self.n = 0
+
+    def after(self, probe, target, result):
+        if self.viol is not None or type(probe.algo).__name__ != "UpdateRisk":
+            return
+        m = probe.algo.measure
+        ur = self.frames[m]
+        now = target.now
+        for node in target.members:
+            e = exp_risk(node, m, {m: ur}, now)
+            self.n += 1
+            got = node.risk.get(m) if hasattr(node, "risk") else None
+            if got is None or not abs(got - e) <= 1e-9 * (1 + abs(e)):
+                self.viol = ("c20_risk", {"node": node.full_name, "measure": m, "risk": got, "expected": e, "now": str(now), "inside": "Backtest"})
+                return
+        hist = probe.algo.history
+        if hist > 0 and hasattr(target, "risks"):
+            v = target.risks.loc[now, m] if now in target.risks.index else None
+            if v is None or not abs(v - target.risk[m]) <= 1e-12 * (1 + abs(target.risk[m])):
+                self.viol = ("c20_history_row", {"node": target.full_name, "measure": m, "row": v, "risk": target.risk[m], "now": str(now)})
+
+
+def risk_bt_oracle(run, cnt, res, ctx):
+    common.bump(cnt, "risk_bt_evals", ctx.n)
+    return ctx.viol
+
+
+def case_risk_bt(cs):
+    spec = w2.gen(cs, risk=1.0, nested_p=0.0, solvers=False, pte=False)
+    if "unit_risk" not in spec["extras"]:
+        return common.result(common.OOD, why="no risk stack generated")
+    idx, data, extras = w2.frames_of(spec)
+    return _w2case.run_w2(cs, [risk_bt_oracle], spec=spec, setup=lambda: RiskBtCtx(extras["unit_risk"]))
+
+
 def run_case(unit, cs, idx, build, params):
+    if unit == "risk_bt":
+        return case_risk_bt(cs)
     if unit == "risk":
         return case_risk(cs, False)
     if unit == "hedge":
